@@ -1,8 +1,8 @@
 package drive
 
 import (
-	"math/big"
 	"fmt"
+	"math/big"
 	"strconv"
 	"strings"
 
